@@ -19,8 +19,11 @@ def specs(rng, tier, count):
     combos = [(v, g) for v in KC.VARIANTS for g in ("plain", "time", "latlon", "latlon_time")]
     for i in range(count):
         v, g = combos[i % len(combos)]
-        dim = 1 + (i // len(combos)) % 3 if g == "plain" else None
-        out.append(KC.gen_spec(rng, variant=v, geo=g, dim=dim, tier=tier, mean_nonzero=(v == "Simple" and i % 2 == 0)))
+        j = i // len(combos)
+        dim = 1 + j % 3 if g == "plain" else None
+        # anisotropy / rotation combinations are cycled (rotation-only first: isotropic models with angles)
+        gm = [1, 0, 2, 3][(j // 3) % 4] if g == "plain" else [1, 0, 2, 3][j % 4]
+        out.append(KC.gen_spec(rng, variant=v, geo=g, dim=dim, tier=tier, mean_nonzero=(v == "Simple" and i % 2 == 0), geom_mode=gm))
     return out
 
 
@@ -34,6 +37,7 @@ def one_case(ctx, drv, rng, spec, stats, corr=True, probes=True):
         if probes:
             tb = KC.probe_textbook(ctx, spec, stats)
             KC.probe_metamorphic(ctx, rng, spec, stats, tb)
+            KC.probe_update_sequence(ctx, rng, spec, stats)
     except Exception as e:  # an exception of the implementation on a valid input is reported with the input
         import traceback
         KC._viol(ctx, "exception", "unexpected exception %r" % (e,), spec, "exception:" + type(e).__name__,
@@ -52,6 +56,8 @@ def run(ctx, only=None):
         "covariance / distance / drift VALUES are model inputs (geometry and covariance functions belong to C02, C03, C12, C13); "
         "the probes rebuild them independently from cov_spatial / cov_yadrenko",
         "NaN filtering of conditioning values (krige/tools.set_condition) is probed, not modelled",
+        "update histories of one Krige object (set_condition with new values, in-place model changes + set_condition()) are probed against a "
+        "freshly built object, not modelled as a state machine",
         "C05_cond_perm_invariant is stated for index-related systems; that reordering the points produces such systems is checked by the probes",
     ]
     gen = C.regenerate(which=["Krigesum_gen.v"])
@@ -73,7 +79,7 @@ def run(ctx, only=None):
         if only is not None:
             one_case(ctx, drv, rng, only, stats)
         else:
-            n = 60 if ctx.tier == "quick" else 700
+            n = 140 if ctx.tier == "quick" else 2400
             for spec in specs(rng, ctx.tier, n):
                 one_case(ctx, drv, rng, spec, stats)
     finally:
